@@ -52,9 +52,12 @@ def main():
     args = sys.argv[1:]
     src, dst = args[0], args[1]
     noinl, stubs = [], []
+    svirt, nvirt = [], []
     i = 2
     while i < len(args):
         if args[i] == '--noinline': noinl.append(re.compile(args[i + 1])); i += 2
+        elif args[i] == '--stub-virtual': svirt.append(re.compile(args[i + 1])); i += 2
+        elif args[i] == '--noop-virtual': nvirt.append(re.compile(args[i + 1])); i += 2
         elif args[i] == '--stub':
             r, c = args[i + 1].rsplit('=', 1); stubs.append((re.compile(r), c, args[i + 1])); i += 2
         else: sys.exit('prep_ir: bad argument ' + args[i])
@@ -106,6 +109,33 @@ def main():
             drop.add(idx)
         out_edits[idx] = body
         sys.stderr.write('prep_ir: stub %s -> %s\n' % (n, cname))
+    # vtable scrub: destructor entries and out-of-scope virtual functions are replaced by
+    # vf_virtual_stub (asserts) or vf_virtual_noop, so that neither CBMC's function-pointer
+    # resolution nor the native link drags in code the obligation never runs
+    dtor_re = re.compile(r'D[012]Ev$')
+    for idx, ln in enumerate(lines):
+        if not (ln.startswith('@_ZTV') or ln.startswith('@"_ZTV')): continue
+        out = []; pos = 0; key = 'i8* bitcast ('
+        while True:
+            k = ln.find(key, pos)
+            if k < 0: out.append(ln[pos:]); break
+            depth = 0; q = k + len(key) - 1
+            while True:
+                if ln[q] == '(': depth += 1
+                elif ln[q] == ')':
+                    depth -= 1
+                    if depth == 0: break
+                q += 1
+            elem = ln[k:q + 1]
+            mm = re.search(r'@("(?:[^"\\]|\\.)*"|[-a-zA-Z$._0-9]+) to i8\*\)$', elem)
+            rep = elem
+            if mm:
+                n = mm.group(1).strip('"')
+                if any(r.search(n) for r in nvirt): rep = 'i8* bitcast (void (i8*)* @vf_virtual_noop to i8*)'
+                elif dtor_re.search(n) or any(r.search(n) for r in svirt): rep = 'i8* bitcast (void (i8*)* @vf_virtual_stub to i8*)'
+                if rep != elem: sys.stderr.write('prep_ir: virtual %s -> %s\n' % (n, 'noop' if 'noop' in rep else 'stub'))
+            out.append(ln[pos:k]); out.append(rep); pos = q + 1
+        lines[idx] = ''.join(out)
     res = []
     for idx, ln in enumerate(lines):
         if idx in out_edits: res.extend(out_edits[idx])
